@@ -47,6 +47,14 @@ pub fn catalogue() -> Vec<(&'static str, Vec<&'static str>)> {
         ("EVAL two writes", vec!["EVAL", "redis.call('RPUSH', KEYS[1], 'p') redis.call('INCR', KEYS[2]) return 1", "2", "sl", "sn"]),
         ("EVAL random", vec!["EVAL", "return redis.call('SPOP', KEYS[1])", "1", "k"]),
         ("EVAL read", vec!["EVAL", "return redis.call('EXISTS', KEYS[1])", "1", "k"]),
+        // scripts are not rolled back: what they wrote before they failed stays, and must be in the log
+        // (a seeded "a refused command changed nothing" shortcut dropped such EVALs from the log)
+        ("EVAL write then error()", vec!["EVAL", "redis.call('SET', KEYS[1], 'half') error('boom')", "1", "k2"]),
+        ("EVAL write then failing call", vec!["EVAL", "redis.call('SET', KEYS[1], 'half') redis.call('INCR', KEYS[1]) return 1", "1", "k2"]),
+        ("EVAL write then wrong-type call on k", vec!["EVAL", "redis.call('RPUSH', KEYS[2], 'p') return redis.call('HINCRBY', KEYS[1], 'f', 1)", "2", "k", "sl"]),
+        ("EVAL write then error table", vec!["EVAL", "redis.call('SADD', KEYS[1], 'm') return {err='refused by the script'}", "1", "k3"]),
+        ("EVAL failing pcall then write", vec!["EVAL", "redis.pcall('INCR', KEYS[1]) redis.call('SET', KEYS[2], 'after') return 1", "2", "sl", "k2"]),
+        ("EVAL error before any write", vec!["EVAL", "error('early') redis.call('SET', KEYS[1], 'never')", "1", "k2"]),
         ("GET", vec!["GET", "k"]), ("unknown", vec!["NOSUCHCMD", "k"]),
     ]
 }
